@@ -395,7 +395,7 @@ pub fn run(ctx: &mut Ctx) -> Result<(), Violation> {
         ctx.stage("all-directed-graphs-on-3-vertices-x-flags", true, r)?;
     }
 
-    let cases = ctx.tier.pick(450, 8_000);
+    let cases = ctx.tier.pick(900, 10_000);
     let maxv = ctx.tier.pick(5, 6);
     let r = par_random(ctx, "random-graphs", cases, 120, |tape, st| {
         let mut t = Tape::new(tape);
